@@ -151,10 +151,10 @@ def resolve_by_path(t: T, path, memo=None) -> T:
     def go(x):
         if x.uid in memo:
             return memo[x.uid]
-        c0 = x.args[0] if x.op == "phi" else None
+        c0 = x.args[0] if x.op in ("phi", "ifexp") and len(x.args) == 3 else None
         if c0 is not None and c0 not in known and c0.op == "unop" and c0.args[0] == "not" and c0.args[1] in known:
             r = go(x.args[2] if known[c0.args[1]] else x.args[1])
-        elif x.op == "phi" and x.args[0] in known:
+        elif c0 is not None and c0 in known:
             r = go(x.args[1] if known[x.args[0]] else x.args[2])
         else:
             new_args = tuple(go(a) if isinstance(a, T) else a for a in x.args)
@@ -218,6 +218,11 @@ def getitem(base: T, idx: T) -> T:
         i = idx.args[0]
         if -len(base.args) <= i < len(base.args):
             return base.args[i]
+    if base.op == "record" and idx.op == "const" and isinstance(idx.args[0], int) and not isinstance(idx.args[0], bool):
+        vals = base.args[1:]
+        i = idx.args[0]
+        if -len(vals) <= i < len(vals):
+            return vals[i]
     if base.op == "binop" and base.args[0] == "+" and idx.op == "const" and idx.args[0] == -1 and \
             isinstance(base.args[2], T) and base.args[2].op == "list" and base.args[2].args:
         return base.args[2].args[-1]            # (L + [a, b])[-1] == b
@@ -227,6 +232,9 @@ def getitem(base: T, idx: T) -> T:
         if isinstance(c_, T) and c_.op == "const" and isinstance(c_.args[0], (int, float)) and not isinstance(c_.args[0], bool) \
                 and isinstance(a_, T) and a_.op not in ("const",):
             return mk("binop", base.args[0], getitem(a_, idx), c_)
+    if idx.op != "slice" and _running_factorial(base):
+        # accumulate(range(1, M), operator.mul)[n]  ==  1 * 2 * ... * (n + 1)  ==  (n + 1)!
+        return call(name("math.factorial"), mk("binop", "+", idx, const(1)))
     if base.op == "dict" and idx.op == "const":
         for j in range(0, len(base.args), 2):
             if base.args[j] is idx:
@@ -238,6 +246,55 @@ def getitem(base: T, idx: T) -> T:
             return ga
         return mk("phi", c, ga, gb)
     return mk("getitem", base, idx)
+
+
+def _peel_list(t: T) -> T:
+    while t.op == "call" and t.args[0].op == "name" and t.args[0].args[0] in ("builtins.list", "builtins.tuple") and \
+            len(t.args) == 2:
+        t = t.args[1]
+    return t
+
+
+def _running_factorial(base: T) -> bool:
+    """base is (a list / tuple of) itertools.accumulate(range(1, M), operator.mul)"""
+    b = _peel_list(base)
+    if not (b.op == "call" and b.args[0].op == "name" and b.args[0].args[0] == "itertools.accumulate"):
+        return False
+    pos = [a for a in b.args[1:] if a.op != "kw"]
+    kws = {a.args[0]: a.args[1] for a in b.args[1:] if a.op == "kw"}
+    fn = pos[1] if len(pos) == 2 else kws.get("func")
+    if len(pos) not in (1, 2) or fn is None or set(kws) - {"func"}:
+        return False
+    r = pos[0]
+    return fn.op == "name" and fn.args[0] == "operator.mul" and r.op == "call" and r.args[0].op == "name" and \
+        r.args[0].args[0] == "builtins.range" and len(r.args) == 3 and r.args[1].op == "const" and r.args[1].args[0] == 1
+
+
+def sequence_length(t: T) -> Optional[T]:
+    """len(t) as a term when the source fixes it: range(a, b) -> b - a, accumulate(R, f) -> len(R), list(X) -> len(X)"""
+    t = _peel_list(t)
+    if t.op in ("tuple", "list") and not any(isinstance(x, T) and x.op == "star" for x in t.args):
+        return const(len(t.args))
+    if t.op == "call" and t.args[0].op == "name":
+        nm = t.args[0].args[0]
+        pos = [a for a in t.args[1:] if a.op != "kw"]
+        if nm == "builtins.range" and len(pos) == len(t.args) - 1:
+            if len(pos) == 1:
+                return pos[0]
+            if len(pos) == 2:
+                lo, hi = pos
+                if lo.op == "const" and lo.args[0] == 0:
+                    return hi
+                if lo.op == "const" and hi.op == "const" and isinstance(lo.args[0], int) and isinstance(hi.args[0], int):
+                    return const(max(hi.args[0] - lo.args[0], 0))
+                if hi.op == "binop" and hi.args[0] == "+" and hi.args[2] is lo:
+                    return hi.args[1]                      # range(c, n + c)
+                return mk("binop", "-", hi, lo)
+        if nm == "itertools.accumulate" and pos and not any(a.op == "kw" and a.args[0] == "initial" for a in t.args[1:]):
+            return sequence_length(pos[0])
+        if nm == "builtins.enumerate" and len(pos) == 1 and len(t.args) == 2:
+            return sequence_length(pos[0])
+    return None
 
 
 def setitem(base: T, key: T, value: T) -> T:
@@ -838,7 +895,7 @@ class Evaluator:
                 res.append(x)
         return res
 
-    def _loop(self, fr, st, header_term: T, target):
+    def _loop(self, fr, st, header_term: T, target, src: Optional[T] = None):
         lid = st.lineno
         assigned = self._assigned_names(st.body)
         inits = {}
@@ -851,7 +908,8 @@ class Evaluator:
         fr.loops = old_loops + ((lid, header_term),)
         self.emit(fr, "loop_enter", st.lineno, header_term)
         if target is not None:
-            self.assign(fr, target, mk("iter", header_term, lid), st.lineno)
+            ix_ = mk("iter", header_term, lid)
+            self.assign(fr, target, mk("tuple", ix_, getitem(src, ix_)) if src is not None else ix_, st.lineno)
         saved_term = fr.env.terminated
         saved_path = fr.path
         self.exec_block(fr, st.body)
@@ -869,6 +927,17 @@ class Evaluator:
             self.exec_block(fr, st.orelse)
 
     MAX_UNROLL = 4
+
+    @staticmethod
+    def _enumerate_as_index_loop(it: T):
+        """for i, x in enumerate(X)  ==  for i in range(len(X)): x = X[i]   ->  (range(len(X)), X)"""
+        if it.op == "call" and func_name(it) == "builtins.enumerate" and len(it.args) == 2 and it.args[1].op != "kw":
+            X = it.args[1]
+            ln_ = sequence_length(X)
+            if ln_ is None:
+                ln_ = call(name("builtins.len"), X)
+            return call(name("builtins.range"), ln_), X
+        return None
 
     def const_sequence(self, it: T) -> Optional[List[T]]:
         """Elements of an iterable whose length is a small literal: range(2), range(1, 3), (a, b), [a, b].
@@ -904,6 +973,10 @@ class Evaluator:
         of a scan or vmap over such a display, a slice of one of those, tuple(<such>)."""
         if t.op in ("tuple", "list") and all(isinstance(a, T) and a.op != "star" for a in t.args):
             return list(t.args)
+        if t.op == "record":
+            ci_ = self.p.classes.get(t.args[0])
+            if ci_ is not None and getattr(ci_, "is_namedtuple", False):
+                return list(t.args[1:])
         if t.op in ("scan_x", "vmap_elem") and isinstance(t.args[0], T):
             inner = self.static_elements(t.args[0])
             if inner is not None:
@@ -924,6 +997,14 @@ class Evaluator:
             l, r = self.static_elements(t.args[1]), self.static_elements(t.args[2])
             if l is not None and r is not None:
                 return l + r
+        if t.op in ("getitem", "call") and not (t.op == "getitem" and t.args[1].op == "slice"):
+            # the result of a scan whose body returns a display / of an in-package function that returns one
+            try:
+                lay = self.layout_of(t, None)
+            except Exception:
+                lay = None
+            if lay is not None and lay[0] == "tup":
+                return [getitem(t, const(i)) for i in range(len(lay[1]))]
         return None
 
     @staticmethod
@@ -1008,6 +1089,10 @@ class Evaluator:
             for el in seq:
                 self.assign(fr, st.target, el, st.lineno)
                 self.exec_block(fr, st.body)
+            return
+        en_ = self._enumerate_as_index_loop(it)
+        if en_ is not None:
+            self._loop(fr, st, en_[0], st.target, src=en_[1])
             return
         self._loop(fr, st, it, st.target)
 
@@ -1170,7 +1255,133 @@ class Evaluator:
         base = self.eval(fr, n.value)
         return self.attr(fr, base, n.attr)
 
+    # ------------------------------------------------------------------ records
+    def record_fields(self, q: str) -> Optional[List[str]]:
+        """field names, in constructor order, of a class whose instances are plain records: a NamedTuple, or a private
+        dataclass without constructor logic"""
+        ci = self.p.classes.get(q)
+        if ci is None or not ci.is_dataclass:
+            return None
+        if not getattr(ci, "is_namedtuple", False):
+            if not ci.name.startswith("_") or any(m in ci.methods for m in ("__init__", "__post_init__", "__new__")):
+                return None
+            if any(c_ != q and self.p.classes.get(c_) is not None and self.p.classes[c_].is_dataclass for c_ in ci.mro[1:]):
+                return None
+        return [f.name for f in self.p.dataclass_fields(q)]
+
+    def make_record(self, fr, f: T, args: List[T], kws: List[T], line: int) -> Optional[T]:
+        q = f.args[0]
+        names = self.record_fields(q)
+        if names is None or any(a.op in ("star", "dstar") for a in args + kws):
+            return None
+        flds = self.p.dataclass_fields(q)
+        vals: Dict[str, T] = {}
+        if len(args) > len(names):
+            return None
+        for n_, v in zip(names, args):
+            vals[n_] = v
+        for k in kws:
+            if k.op != "kw" or k.args[0] not in names or k.args[0] in vals:
+                return None
+            vals[k.args[0]] = k.args[1]
+        for fld in flds:
+            if fld.name not in vals:
+                if fld.default is None:
+                    return None
+                vals[fld.name] = self.eval(fr, fld.default)
+        return mk("record", q, *[vals[n_] for n_ in names])
+
+    _layout_cache: Dict[Tuple[int, int], object] = {}
+
+    def layout_of(self, t: T, fr, depth: int = 0):
+        """Shape of the value of t as far as the source fixes it: ('rec', class) for a record, ('tup', [layouts]) for a
+        tuple / list display, None when unknown.  Looks through calls of in-package functions (their returned display),
+        scan results (the body's returned carry / per-step output) and scan / vmap element terms."""
+        if depth > 6 or not isinstance(t, T):
+            return None
+        if t.op == "record":
+            return ("rec", t.args[0])
+        if t.op in ("tuple", "list"):
+            return ("tup", [self.layout_of(a, fr, depth + 1) for a in t.args])
+        if t.op in ("phi", "ifexp") and len(t.args) == 3:
+            a, b = self.layout_of(t.args[1], fr, depth + 1), self.layout_of(t.args[2], fr, depth + 1)
+            return a if a == b else None
+        if t.op in ("scan_carry",) and isinstance(t.args[0], T):
+            return self.layout_of(t.args[0], fr, depth + 1)
+        if t.op in ("scan_x", "vmap_elem") and isinstance(t.args[0], T):
+            return self.layout_of(t.args[0], fr, depth + 1)
+        if t.op == "getitem" and t.args[1].op == "const" and isinstance(t.args[1].args[0], int):
+            lay = self.layout_of(t.args[0], fr, depth + 1)
+            i = t.args[1].args[0]
+            if lay is not None and lay[0] == "tup" and -len(lay[1]) <= i < len(lay[1]):
+                return lay[1][i]
+            return None
+        if t.op == "call":
+            key_ = (id(self), t.uid)
+            if key_ in self._layout_cache:
+                return self._layout_cache[key_]
+            self._layout_cache[key_] = None          # recursion guard
+            lay = None
+            sc = match_scan(t)
+            if sc is not None and sc[0].op == "closure" and self._depth < self.MAX_INLINE_DEPTH:
+                try:
+                    body = self.open_closure(sc[0], [mk("scan_carry", sc[1], 0), mk("scan_x", sc[2], 0)], at_call=t)
+                    bl = self.layout_of(body, fr, depth + 1)
+                    if bl is not None and bl[0] == "tup" and len(bl[1]) == 2:
+                        lay = ("tup", [bl[1][0] if bl[1][0] is not None else self.layout_of(sc[1], fr, depth + 1), bl[1][1]])
+                except Exception:
+                    lay = None
+            elif t.args[0].op in ("attr", "fn"):
+                try:
+                    cands = self.resolve_callees(t.args[0], fr)
+                except Exception:
+                    cands = None
+                if cands and len(cands) == 1 and not cands[0][0].is_abstract and self._depth < self.MAX_INLINE_DEPTH:
+                    callee, rc = cands[0]
+                    lay = self._callee_layout(callee, rc, depth)
+            self._layout_cache[key_] = lay
+            return lay
+        return None
+
+    _callee_layouts: Dict[str, object] = {}
+
+    def _callee_layout(self, callee: FuncInfo, rc, depth: int):
+        k = f"{id(self.p)}:{callee.qualname}:{rc}"
+        if k in self._callee_layouts:
+            return self._callee_layouts[k]
+        self._callee_layouts[k] = None
+        lay = None
+        try:
+            sub = Evaluator(self.p)
+            sub.auto_inline_helpers = True
+            sub._depth = self._depth + 1
+            fr2 = sub.eval_function(callee, self_class=rc)
+            rets = [r_ for _, r_, _ in fr2.returns]
+            lays = [sub.layout_of(r_, fr2, depth + 1) for r_ in rets]
+            if lays and all(l_ == lays[0] for l_ in lays):
+                lay = lays[0]
+        except Exception:
+            lay = None
+        self._callee_layouts[k] = lay
+        return lay
+
     def attr(self, fr, base: T, a: str) -> T:
+        if base.op == "record":
+            names = self.record_fields(base.args[0])
+            if names is not None and a in names:
+                return base.args[1 + names.index(a)]
+        elif base.op in ("phi", "ifexp") and len(base.args) == 3 and all(
+                isinstance(x, T) and x.op == "record" for x in base.args[1:]):
+            return mk(base.op, base.args[0], self.attr(fr, base.args[1], a), self.attr(fr, base.args[2], a))
+        elif base.op in ("call", "getitem", "scan_carry", "scan_x", "vmap_elem") and not a.startswith("__") and \
+                a not in ("T", "real", "imag", "shape", "size", "ndim", "dtype", "at"):
+            # x.energy where x is known to be a record (the result of an in-package function / of a scan whose body
+            # returns one): the field's position, so that a named field and a tuple slot are the same term
+            lay = self.layout_of(base, fr)
+            if lay is not None and lay[0] == "rec":
+                names = self.record_fields(lay[1])
+                if names is not None and a in names:
+                    return getitem(base, const(names.index(a)))
         if base.op == "mod":
             target = self.p.modules[base.args[0]]
             r = self.p._resolve_in_module(target, [a])
@@ -1375,6 +1586,14 @@ class Evaluator:
         gens = []
         for g in n.generators:
             it = self.eval(sub, g.iter)
+            en_ = self._enumerate_as_index_loop(it)
+            if en_ is not None:
+                it, src_ = en_
+                ix_ = mk("iter", it, n.lineno)
+                self.assign(sub, g.target, mk("tuple", ix_, getitem(src_, ix_)), n.lineno)
+                conds = [self.eval(sub, c) for c in g.ifs]
+                gens.append(mk("gen", it, *conds))
+                continue
             self.assign(sub, g.target, mk("iter", it, n.lineno), n.lineno)
             conds = [self.eval(sub, c) for c in g.ifs]
             gens.append(mk("gen", it, *conds))
@@ -1437,22 +1656,41 @@ class Evaluator:
                 t = setitem(tgt.args[0].args[0], tgt.args[1], args[0])
                 self.note_line(t, line)
                 return t
+        if f.op == "cls":
+            rec = self.make_record(fr, f, args, kws, line)
+            if rec is not None:
+                t0 = call(f, *args, *kws)
+                self.note_line(t0, line)
+                self.emit(fr, "call", line, t0)          # the constructor call is still a call site (arity rules)
+                self.note_line(rec, line)
+                return rec
         if (self.inline_policy is not None or self.auto_inline_helpers) and self._depth < self.MAX_INLINE_DEPTH \
                 and f.op in ("attr", "fn"):
             cands = self.resolve_callees(f, fr)
             if cands and len(cands) == 1:
                 callee, rc = cands[0]
+                is_rec_method = callee.cls is not None and self.record_fields(callee.cls) is not None
                 if not callee.qualname.endswith(">") and (
                         (self.inline_policy is not None and self.inline_policy(callee, rc, fr)) or
-                        (self.auto_inline_helpers and is_unnamed_helper(callee))):
+                        (self.auto_inline_helpers and (is_unnamed_helper(callee) or is_rec_method))):
                     r = self.inline_function(fr, f, callee, rc, args, kws, line)
                     if r is not None:
                         return r
+        if f.op == "partial":
+            F_, b_, k_ = f.args
+            given = {k.args[0] for k in kws if isinstance(k, T) and k.op == "kw"}
+            return self.apply(fr, F_, list(b_.args) + list(args),
+                              [k for k in k_.args if not (k.op == "kw" and k.args[0] in given)] + list(kws), line)
+        if f.op == "name":
+            r_ = self._fold_stdlib(fr, f, args, kws, line)
+            if r_ is not None:
+                return r_
         if f.op == "name" and not kws and len(args) == 1 and isinstance(args[0], T):
             a0 = args[0]
-            if f.args[0] == "builtins.len" and a0.op in ("tuple", "list") and not any(
-                    isinstance(x, T) and x.op == "star" for x in a0.args):
-                return const(len(a0.args))
+            if f.args[0] == "builtins.len":
+                ln_ = sequence_length(a0)
+                if ln_ is not None:
+                    return ln_
             if f.args[0] in ("builtins.tuple", "builtins.list") and a0.op in ("tuple", "list") and not any(
                     isinstance(x, T) and x.op == "star" for x in a0.args):
                 return mk("tuple" if f.args[0].endswith("tuple") else "list", *a0.args)
@@ -1469,6 +1707,167 @@ class Evaluator:
         if self.open_transforms and self._depth < self.MAX_INLINE_DEPTH:
             self._open_transform(fr, t, line)
         return t
+
+    _OPERATORS = {"add": "+", "sub": "-", "mul": "*", "truediv": "/", "floordiv": "//", "mod": "%", "pow": "**",
+                  "matmul": "@", "and_": "&", "or_": "|", "xor": "^"}
+    _CMP_OPERATORS = {"lt": "<", "le": "<=", "gt": ">", "ge": ">=", "eq": "==", "ne": "!="}
+
+    def _fold_stdlib(self, fr, f: T, args: List[T], kws: List[T], line: int) -> Optional[T]:
+        """Calls of standard-library utilities whose result is fixed by the source: operator.*, functools.partial /
+        reduce, map / zip / enumerate / itertools.product / chain over sequences of known length, math.prod,
+        jax.tree_util.tree_map over list displays, operator.itemgetter(...)(x).  None: not one of these / not foldable."""
+        nm = f.args[0]
+        kwd = {k.args[0]: k.args[1] for k in kws if isinstance(k, T) and k.op == "kw"}
+        if any(isinstance(a, T) and a.op in ("star", "dstar") for a in args + kws):
+            return None
+        if nm.startswith("operator."):
+            op = nm.split(".", 1)[1]
+            if op in self._OPERATORS and len(args) == 2 and not kws:
+                return mk("binop", self._OPERATORS[op], args[0], args[1])
+            if op in self._CMP_OPERATORS and len(args) == 2 and not kws:
+                return mk("cmp", self._CMP_OPERATORS[op], args[0], args[1])
+            if op == "neg" and len(args) == 1:
+                return mk("unop", "-", args[0])
+            if op == "getitem" and len(args) == 2:
+                return getitem(args[0], args[1])
+            return None
+        if nm == "functools.partial" and args:
+            return self._make_partial(fr, args[0], args[1:], kws, line)
+        if nm == "functools.reduce" and len(args) in (2, 3) and not kws:
+            els = self.static_elements(args[1])
+            if els is None:
+                return None
+            acc = args[2] if len(args) == 3 else (els[0] if els else None)
+            rest = els if len(args) == 3 else els[1:]
+            if acc is None:
+                return None
+            for e in rest:
+                acc = self.apply(fr, args[0], [acc, e], [], line)
+            return acc
+        if nm == "math.prod" and len(args) == 1 and not kws:
+            els = self.static_elements(args[0])
+            if els:
+                acc = els[0]
+                for e in els[1:]:
+                    acc = mk("binop", "*", acc, e)
+                return acc
+            return None
+        def zipped(seq_terms):
+            """element tuples of zip(*seq_terms): the length is that of the shortest sequence whose length the source
+            fixes; a sequence of unknown length (ham_data['rot_chol'], an [up, dn] pair by convention) contributes
+            seq[i] -- it is assumed to be at least that long, which is what the indexed form it replaces assumed too"""
+            seqs = [self.static_elements(a) for a in seq_terms]
+            known = [q for q in seqs if q is not None]
+            if not known:
+                return None
+            n = min(len(q) for q in known)
+            return [[(q[i] if q is not None else getitem(a, const(i))) for q, a in zip(seqs, seq_terms)] for i in range(n)]
+        if nm == "builtins.map" and len(args) >= 2 and not kws:
+            rows = zipped(args[1:])
+            if rows is None:
+                return None
+            return mk("list", *[self.apply(fr, args[0], row, [], line) for row in rows])
+        if nm == "builtins.zip" and args and not kws:
+            rows = zipped(args)
+            if rows is None:
+                return None
+            return mk("list", *[mk("tuple", *row) for row in rows])
+        if nm == "builtins.enumerate" and len(args) == 1 and not kws:
+            els = self.static_elements(args[0])
+            if els is None:
+                return None
+            return mk("list", *[mk("tuple", const(i), e) for i, e in enumerate(els)])
+        if nm == "itertools.product" and args:
+            seqs = [self.static_elements(a) for a in args]
+            rep = kwd.get("repeat")
+            if any(q is None for q in seqs) or (rep is not None and not (rep.op == "const" and isinstance(rep.args[0], int))):
+                return None
+            if set(kwd) - {"repeat"}:
+                return None
+            seqs = seqs * (rep.args[0] if rep is not None else 1)
+            import itertools as _it
+            combos = list(_it.product(*seqs))
+            if len(combos) > 64:
+                return None
+            return mk("list", *[mk("tuple", *c_) for c_ in combos])
+        if nm == "itertools.chain" and args and not kws:
+            seqs = [self.static_elements(a) for a in args]
+            if any(q is None for q in seqs):
+                return None
+            return mk("list", *[e for q in seqs for e in q])
+        if nm in ("jax.tree_util.tree_map", "jax.tree_map", "jax.tree.map") and len(args) >= 2 and not kws:
+            def tmap(trees):
+                t0 = trees[0]
+                if isinstance(t0, T) and t0.op in ("list", "tuple") and all(
+                        isinstance(x, T) and x.op == t0.op and len(x.args) == len(t0.args) for x in trees):
+                    return mk(t0.op, *[tmap([x.args[i] for x in trees]) for i in range(len(t0.args))])
+                return self.apply(fr, args[0], list(trees), [], line)
+            t0 = args[1]
+            if isinstance(t0, T) and t0.op in ("list", "tuple"):
+                return tmap(list(args[1:]))
+            return None
+        return None
+
+    def _make_partial(self, fr, F: T, bound: List[T], kws: List[T], line: int) -> Optional[T]:
+        """functools.partial(F, b1, .., k=v)  ->  the closure  lambda p1, ..: F(b1, .., p1, .., k=v)  over the parameters F
+        still lacks (read off F's signature), so that it is opened, matched and inlined like a hand-written wrapper"""
+        F0 = transparent(F)
+        kwd = {k.args[0]: k.args[1] for k in kws if k.op == "kw"}
+        if len(kwd) != len(kws):
+            return None
+        names: Optional[List[str]] = None
+        if F0.op == "closure":
+            a = self.closures[F0.args[0]].node.args
+            if a.vararg or a.kwarg:
+                return None
+            names = [p.arg for p in list(a.posonlyargs) + list(a.args)]
+        elif F0.op in ("attr", "fn"):
+            try:
+                cands = self.resolve_callees(F0, fr)
+            except Exception:
+                cands = None
+            if cands and len({c_[0].qualname for c_ in cands}) >= 1:
+                sigs = set()
+                for callee, _rc in cands:
+                    if any(q.kind in ("vararg", "kwarg") for q in callee.params):
+                        return None
+                    pp = [q.name for q in callee.pos_params()]
+                    if F0.op == "attr" and not callee.is_staticmethod and pp:
+                        pp = pp[1:]
+                    sigs.add(tuple(pp))
+                if len(sigs) == 1:
+                    names = list(next(iter(sigs)))
+        elif F0.op == "name":
+            # an external function (jnp.einsum, ...): the application appends the remaining arguments
+            return mk("partial", F0, mk("tuple", *bound), mk("tuple", *kws))
+        if names is None or len(bound) > len(names):
+            return None
+        rest = [n_ for n_ in names[len(bound):] if n_ not in kwd]
+        sub = Frame(self, fr.fi, fr.mod, fr, fr.label + ".<partial>")
+        sub.self_class = fr.self_class
+        sub.path, sub.loops = fr.path, fr.loops
+        sub.env.vars["__pf"] = F
+        call_args = []
+        for i, b in enumerate(bound):
+            sub.env.vars[f"__pb{i}"] = b
+            call_args.append(ast.Name(id=f"__pb{i}", ctx=ast.Load()))
+        uniq = [f"{n_}" if not n_.startswith("__p") else f"q{n_}" for n_ in rest]
+        for n_ in uniq:
+            call_args.append(ast.Name(id=n_, ctx=ast.Load()))
+        kw_nodes = []
+        for k_, v_ in kwd.items():
+            sub.env.vars[f"__pk_{k_}"] = v_
+            kw_nodes.append(ast.keyword(arg=k_, value=ast.Name(id=f"__pk_{k_}", ctx=ast.Load())))
+        lam = ast.Lambda(
+            args=ast.arguments(posonlyargs=[], args=[ast.arg(arg=n_) for n_ in uniq], vararg=None, kwonlyargs=[],
+                               kw_defaults=[], kwarg=None, defaults=[]),
+            body=ast.Call(func=ast.Name(id="__pf", ctx=ast.Load()), args=call_args, keywords=kw_nodes))
+        ast.fix_missing_locations(lam)
+        for n_ in ast.walk(lam):
+            if hasattr(n_, "lineno"):
+                n_.lineno = line
+                n_.end_lineno = line
+        return self.make_closure(sub, lam, "<partial>")
 
     def _snapshot_closures(self, t: T, f: T, args: List[T]):
         """Closures are late-binding: a body handed to scan / vmap / jvp runs with the values its
@@ -1609,6 +2008,13 @@ class Evaluator:
             if depth > 6:
                 out.append((tuple(path), "return", term, line))
                 return
+            if term.op in ("phi", "ifexp") and len(term.args) == 3 and all(isinstance(a_, T) for a_ in term.args) and \
+                    term.args[0] not in {c for c, _ in path}:
+                # `return a if c else b` is the two-exit form `if c: return a / else: return b`
+                for pol in (True, False):
+                    p2 = tuple(path) + ((term.args[0], pol),)
+                    expand(p2, resolve_by_path(term, p2), line, depth + 1)
+                return
             inl = [(r, sub) for r, sub in multi if any(x is r for x in subterms(term))]
             if not inl:
                 out.append((tuple(path), "return", term, line))
@@ -1690,9 +2096,17 @@ class Evaluator:
             return None
         for p, v in zip(params, args):
             binding[p] = v
+        kwonly = [p.arg for p in a.kwonlyargs]
         for k in kws:
             if k.op == "kw":
+                if k.args[0] not in params and k.args[0] not in kwonly:
+                    return None
                 binding[k.args[0]] = k.args[1]
+        for p_, d_ in zip(a.kwonlyargs, a.kw_defaults):
+            if p_.arg not in binding:
+                if d_ is None:
+                    return None
+                binding[p_.arg] = self.eval(clo.frame, d_)
         defaults = list(a.defaults)
         for i, p in enumerate(params):
             if p not in binding:
@@ -1762,6 +2176,8 @@ class Evaluator:
             c = self.types.get(t)
         if c is None and t.op == "call" and t.args[0].op == "cls":
             return t.args[0].args[0]
+        if c is None and t.op == "record":
+            return t.args[0]
         return c
 
     def resolve_callees(self, f: T, fr: Optional[Frame] = None) -> Optional[List[Tuple[FuncInfo, Optional[str]]]]:
@@ -1776,7 +2192,17 @@ class Evaluator:
             return [(self.p.init_signature(q), q)]
         if f.op == "attr":
             recv, meth = f.args
+            if recv.op == "cls":
+                # Class.method(...): a classmethod (cls bound to the class term) or a staticmethod
+                fi = self.p.lookup_method(recv.args[0], meth)
+                if fi is not None and (fi.is_classmethod or fi.is_staticmethod):
+                    return [(fi, recv.args[0])]
+                return None
             c = self.static_type(recv, fr)
+            if c is None and recv.op in ("call", "getitem", "scan_carry", "scan_x", "vmap_elem"):
+                lay_ = self.layout_of(recv, fr)
+                if lay_ is not None and lay_[0] == "rec":
+                    c = lay_[1]
             if c is None and recv.op == "call" and recv.args[0].op == "name" and \
                     recv.args[0].args[0] == "builtins.super" and fr is not None and fr.self_class:
                 # super().m(...) -> next in MRO after the class that lexically owns the frame
